@@ -1,7 +1,7 @@
 (* C12 -- Quadrature rules have their stated degree of exactness.
    Only statements: each theorem is closed by [exact] of a lemma proved under theories/Quad. *)
 From Coq Require Import QArith ZArith List.
-From BV Require Import Quad.Poly Quad.Rules Quad.DuffyMoments Quad.Exactness Quad.DuffyExact Quad.C12Lemmas.
+From BV Require Import Quad.Poly Quad.Rules Quad.DuffyMoments Quad.Exactness Quad.DuffyExact Quad.C12Lemmas Quad.DuffyTolerance.
 
 (* triangle rule of order n (1..20): every monomial x^a y^b, a+b <= n, is integrated to 1e-14
    (tri_ok r a b:  | sum_i w_i x_i^a y_i^b - a! b!/(a+b+2)! | <= 1e-14, on the exact values of the shipped doubles) *)
@@ -57,6 +57,16 @@ Theorem C12_duffy_exact_partial : forall (order : Z) (adj a b c d : nat) (xw : l
   (forall k, (k <= 2 * Z.to_nat order - 1)%nat -> exists r, gauss_rule order = Some r /\ gauss_ok r k = true).
 Proof. exact duffy_exact_partial. Qed.
 Print Assumptions C12_duffy_exact_partial.
+
+(* the numerical statement: every singular rule of order n = 2..30 integrates every monomial of total degree
+   <= min(2n-4, 8) over the product of two reference triangles to 1e-8 (near e x y := -e <= x - y <= e; the bound is
+   crude: l1 norm of the expanded integrand (< 1e5) times 5e-14).  Degrees 9..2n-4 are not covered (computation cap). *)
+Theorem C12_duffy_exact_to_degree_8 : forall (order : Z) (adj a b c d : nat) (xw : list (Q * Q)),
+  (2 <= order <= 30)%Z -> (adj < 3)%nat -> gauss_ruleQ order = Some xw ->
+  (a + b + c + d <= 2 * Z.to_nat order - 4)%nat -> (a + b + c + d <= cap)%nat ->
+  near (1 # 100000000) (rule_sum (duffy_rule (regions_of adj) xw) (monoQ a b c d)) (exactQ a b c d).
+Proof. exact duffy_exact. Qed.
+Print Assumptions C12_duffy_exact_to_degree_8.
 
 Theorem C12_remap_edge : forall (x0 x1 x2 : Q) (v0 v1 : nat) (p : Q * Q),
   (v0 < 3)%nat -> (v1 < 3)%nat -> v0 <> v1 ->
